@@ -91,6 +91,7 @@ structure St where
   propagations : Nat
   conflicts : Nat
   restarts : Nat
+  nBlocking : Nat := 0
 
 def decay : Float := Float.ofBits Solvor.Gen.Sat.vsidsDecay_bits
 
@@ -286,7 +287,7 @@ def pickVar (st : St) : St × Nat := Id.run do
   return (st, 0)
 
 def reduceDb (st : St) : St :=
-  if (st.learned.size : Int) < Solvor.Gen.Sat.reduceDbThreshold then st else Id.run do
+  if ((st.learned.size - st.nBlocking : Nat) : Int) < Solvor.Gen.Sat.reduceDbThreshold then st else Id.run do
     let n := st.learned.size
     let idx := (List.range n).mergeSort fun a b =>
       let ka := (st.lbd[a]!, (st.learned[a]!).size)
@@ -342,7 +343,7 @@ def finish (st : St) (all : Array (List (Nat × Bool))) (status : Status) (lt it
   else mkOut st status none none lt it fuel
 
 def solve (clausesIn : List (List Int)) (assumptionsIn : List Int) (P : Params) : Out := Id.run do
-  let empty : St := ⟨0, 0, #[], #[], #[], #[], #[], #[], #[], #[], #[], 0, #[], #[], #[], #[], #[], 1.0, #[], #[], #[], 0, 0, 0, 0⟩
+  let empty : St := ⟨0, 0, #[], #[], #[], #[], #[], #[], #[], #[], #[], 0, #[], #[], #[], #[], #[], 1.0, #[], #[], #[], 0, 0, 0, 0, 0⟩
   if clausesIn.isEmpty && assumptionsIn.isEmpty then
     return mkOut empty .OPTIMAL (some []) none 0 0 0
   let clauses : Array (Array Int) := (clausesIn.map List.toArray).toArray
@@ -455,7 +456,7 @@ def solve (clausesIn : List (List Int)) (assumptionsIn : List Int) (P : Params) 
       if blocking.size == 0 then
         return { finish st all .OPTIMAL learnedTotal iters fuel with log := log }
       let cidx := st.nOrig + st.learned.size
-      st := { st with learned := st.learned.push blocking, lbd := st.lbd.push 0 }
+      st := { st with learned := st.learned.push blocking, lbd := st.lbd.push 0, nBlocking := st.nBlocking + 1 }
       if log.size < 48 then log := log.push (true, blocking)
       st := unassignTo st 0
       decLevel := 0
